@@ -1,4 +1,4 @@
-import N2k.Lemmas.DeviceListStep
+import N2k.Lemmas.DeviceListFrame
 import N2k.Spec.DeviceMap
 /-!
 # C18 - the optional device list mirrors the address claims seen on the bus
@@ -159,5 +159,93 @@ example : ∃ (post : List (Env × Msg)) (m : Msg), m.pgn = pgnClaim ∧ m.sourc
       simp only [List.mem_singleton] at hem
       subst hem
       exact ⟨by decide, by decide⟩⟩
+
+/-- **C18, list-updated flag.** In every reachable state, a run of `HandleMsg` either raises the list-updated
+indication or leaves unchanged what the list reports for every non-zero NAME: the set of (source, product
+information, the three configuration strings, transmit and receive PGN lists) read back through the getters of
+the entries carrying that NAME (`Reports`). The flag is only ever reset by `ReadResetIsListUpdated`. -/
+theorem C18_updated_flag (h : List (Env × Msg)) (e : Env) (m : Msg) :
+    ∃ s s', run State.init h = .ok s ∧ handleMsg e s m = .ok s' ∧
+      (s'.listUpdated = true ∨ ∀ n, n ≠ 0 → ∀ o, Reports s' n o ↔ Reports s n o) := by
+  obtain ⟨s, hs, hi⟩ := run_spec h Inv.init
+  obtain ⟨s', hs', _, hd⟩ := handleMsg_spec e hi m
+  refine ⟨s, s', hs, hs', ?_⟩
+  rcases step_flag hd with hf | hv
+  · exact Or.inl hf
+  · exact Or.inr (fun n hn o => hv.reports hn o)
+
+theorem run_ok_append {s s1 s2 : State} {a b : List (Env × Msg)} (h1 : run s a = .ok s1) (h2 : run s1 b = .ok s2) :
+    run s (a ++ b) = .ok s2 := by rw [run_append, h1]; exact h2
+
+theorem run_ok_cons {s s1 s2 : State} {e : Env} {m : Msg} {t : List (Env × Msg)} (h1 : handleMsg e s m = .ok s1)
+    (h2 : run s1 t = .ok s2) : run s ((e, m) :: t) = .ok s2 := by simp [run, h1, h2]
+
+/-- **C18, product information (partial).** Let the non-zero NAME `n` claim source `src < 254` (message `mc`),
+let `mp` be the first PGN 126996 from `src` after that claim, and let no address claim from `src` or of `n` occur
+after `mc` (`Quiet`: the claim is the latest one of `n` and is not displaced). Then for every continuation the
+entry found under `src` carries NAME `n` and its product information is exactly the parse result of `mp`
+(`ParseN2kPGN126996`, strings cut to the 32-character fields) - unchanged by anything received later.
+
+PARTIAL - what is excluded: `hfresh`, the list must not already show NAME `n` under `src` when `mc` arrives.
+That happens when `n`'s entry was parked on the free slot `src` by an earlier displacement (open finding
+`C18:parked-entry-prodinfo`); `C18_parked_entry_witness` proves that the conclusion fails there. -/
+theorem C18_information_prod_partial (pre mid post : List (Env × Msg)) (e0 e1 : Env) (mc mp : Msg) (n : Nat)
+    (hmc : mc.pgn = pgnClaim) (hsrc : mc.source < MaxBusDevices) (hname : claimName mc = n) (_hn : n ≠ 0)
+    (hmp : mp.pgn = pgnProd) (hmps : mp.source = mc.source)
+    (hmid : Quiet mid mc.source n) (hnoprod : ∀ em ∈ mid, ¬ (em.2.source = mc.source ∧ em.2.pgn = pgnProd))
+    (hpost : Quiet post mc.source n)
+    (hfresh : ∀ s0, run State.init pre = .ok s0 →
+      ∀ id d, findBySource s0 mc.source = some id → s0.heap id = some d → d.name ≠ n) :
+    ∃ s id d p, run State.init (pre ++ (e0, mc) :: (mid ++ (e1, mp) :: post)) = .ok s ∧ parseProd e1 mp = .ok p ∧
+      findBySource s mc.source = some id ∧ s.heap id = some d ∧ d.name = n ∧ d.prod = p := by
+  obtain ⟨s0, hs0, hi0⟩ := run_spec pre Inv.init
+  obtain ⟨s1, hs1, hi1, hd1⟩ := handleMsg_spec e0 hi0 mc
+  have hfr : ¬ ∃ d, devAt s0 mc.source = some d ∧ d.name = claimName mc := by
+    intro ⟨d, hd, hdn⟩
+    obtain ⟨_, _, _, id, hsi, hhd⟩ := devAt_src hi0.st hd
+    have h254 : ¬ mc.source ≥ MaxBusDevices := by omega
+    exact hfresh s0 hs0 id d (by simp [findBySource, h254, hsi]) hhd (by rw [hdn, hname])
+  obtain ⟨d1, hda1, hn1, hl1⟩ := step_claim_fresh hd1 hmc hsrc hfr
+  rw [hname] at hn1
+  obtain ⟨s2, d2, hs2, hi2, hda2, hn2, hl2, _⟩ := run_prod_keep mid hi1 hda1 (by rw [hn1]; exact hmid) (Or.inr hnoprod)
+  obtain ⟨s3, hs3, hi3, hd3⟩ := handleMsg_spec e1 hi2 mp
+  rw [← hmps] at hda2
+  obtain ⟨d3, p, hp, hda3, hn3, hl3, hp3⟩ := step_prod_first hd3 hda2 (by rw [hmps]; exact hsrc) hmp (by rw [hl2, hl1])
+  rw [hmps] at hda3
+  obtain ⟨s4, d4, hs4, hi4, hda4, hn4, _, hp4⟩ := run_prod_keep post hi3 hda3
+    (by rw [hn3, hn2, hn1]; exact hpost) (Or.inl hl3)
+  obtain ⟨hsrc4, _, _, id, hsi, hhd⟩ := devAt_src hi4.st hda4
+  have h254 : ¬ mc.source ≥ MaxBusDevices := by omega
+  refine ⟨s4, id, d4, p, ?_, hp, by simp [findBySource, h254, hsi], hhd, by rw [hn4, hn3, hn2, hn1], by rw [hp4, hp3]⟩
+  exact run_ok_append hs0 (run_ok_cons hs1 (run_ok_append hs2 (run_ok_cons hs3 hs4)))
+
+/-- the hypotheses of `C18_information_prod_partial` are satisfiable (empty `pre`, `mid`, `post`) -/
+example : ∃ (mc mp : Msg), mc.pgn = pgnClaim ∧ mc.source < MaxBusDevices ∧ claimName mc = 0xA1 ∧ mp.pgn = pgnProd ∧
+    mp.source = mc.source ∧ Quiet [] mc.source 0xA1 ∧
+    (∀ s0, run State.init [] = .ok s0 → ∀ id d, findBySource s0 mc.source = some id → s0.heap id = some d → d.name ≠ 0xA1) :=
+  ⟨⟨pgnClaim, 5, [0xA1, 0, 0, 0, 0, 0, 0, 0]⟩, ⟨pgnProd, 5, [1, 2, 3, 4]⟩, rfl, by decide, by decide, rfl, rfl,
+    (by intro em hem; cases hem), (by
+      intro s0 hs0 id d hf
+      simp only [run, Except.ok.injEq] at hs0
+      subst hs0
+      simp [findBySource, State.init] at hf)⟩
+
+/-- the history of the open finding `C18:parked-entry-prodinfo`: NAME A1 claims 5; NAME B2 takes 5 over (A1's
+entry is parked on the free slot 0); somebody sends product information (code 111) from address 0; A1 claims
+address 0 - its latest, undisplaced claim; A1 sends its product information (code 222) -/
+def parkedHistory : List (Env × Msg) :=
+  let e : Env := ⟨5000, true, 0, fun _ => 0⟩
+  [(e, ⟨pgnClaim, 5, [0xA1, 0, 0, 0, 0, 0, 0, 0]⟩), (e, ⟨pgnClaim, 5, [0xB2, 0, 0, 0, 0, 0, 0, 0]⟩),
+   (e, ⟨pgnProd, 0, [111, 0, 111, 0]⟩), (e, ⟨pgnClaim, 0, [0xA1, 0, 0, 0, 0, 0, 0, 0]⟩),
+   (e, ⟨pgnProd, 0, [222, 0, 222, 0]⟩)]
+
+/-- **negation of the product-information statement at the concrete witness**: after `parkedHistory` the entry
+under source 0 carries NAME A1 (claim handling is right), the first 126996 after A1's claim of address 0 parses
+to product code 222, but the list reports product code 111. -/
+theorem C18_parked_entry_witness :
+    ∃ s id d p, run State.init parkedHistory = .ok s ∧ findBySource s 0 = some id ∧ s.heap id = some d ∧
+      d.name = 0xA1 ∧ parseProd ⟨5000, true, 0, fun _ => 0⟩ ⟨pgnProd, 0, [222, 0, 222, 0]⟩ = .ok p ∧
+      p.productCode = 222 ∧ d.prod.productCode = 111 :=
+  ⟨_, _, _, _, rfl, rfl, rfl, rfl, rfl, rfl, rfl⟩
 
 end N2k.C18
